@@ -344,6 +344,39 @@ spec("C12", ["C12/"], c12_q, c12_t,
      ["the kernel's cBPF interpreter (trusted to agree with x/net/bpf)", "VLAN-tagged frames", "the SYN-ACK handshake phase of the SACK run against its filter (handshake harness not built yet)",
       "'unfragmented' is read as fragment offset = 0, which is what the property's own expression (jset 0x1fff) denotes"])
 
+
+# ---- C10 entry points under faults ----
+def X(pkg, harness, reach, timeout=900, **kw):
+    return J(pkg, harness, reach, timeout=timeout, no_replay=True, **kw)
+c10_q = [X("udp", "Verif_C10_udp", ["fault-hit", "no-fault"], max_preempt=2), X("tcp", "Verif_C10_tcp", ["fault-hit", "no-fault"]), X("tcp", "Verif_C10_tcp", ["fault-hit", "no-fault"], paris=1),
+         X("icmp", "Verif_C10_icmp", ["fault-hit", "no-fault"], max_preempt=2), X("sack", "Verif_C10_sack", ["fault-hit", "no-fault", "unsupported"], max_preempt=2)] + fail_q
+c10_t = [X("udp", "Verif_C10_udp", ["fault-hit", "no-fault"], 3600, max_preempt=4), X("tcp", "Verif_C10_tcp", ["fault-hit", "no-fault"]), X("tcp", "Verif_C10_tcp", ["fault-hit", "no-fault"], paris=1),
+         X("icmp", "Verif_C10_icmp", ["fault-hit", "no-fault"], 3600, max_preempt=4), X("sack", "Verif_C10_sack", ["fault-hit", "no-fault", "unsupported"], 3600, max_preempt=4)] + fail_t
+spec("C10", ["C10/", "C20/", "C06/reported", "C12/filter-spec", "C08/dial"], c10_q, c10_t,
+     dict(CONC_BOUNDS, runs="the four protocol entry points executed whole: (*UDPv4).Traceroute, (*TCPv4).Traceroute, RunICMPTraceroute, runSackTraceroute; MinTTL 1, MaxTTL 2, silent network (every read ends at its deadline), real engines and drivers",
+          faults="one fault per run, symbolic choice: local-address lookup, port reservation, handle construction, first/second filter, dial, handshake never captured, SYN-ACK without SACK-permitted, k-th SetReadDeadline / WriteTo / Read (fatal) / zero-length Read for k in 1..2; additionally Close() of the handles may or may not report an error",
+          engines="plus the engine-level fault harness over the model driver (k-th SendProbe/ReceiveProbe fails, k <= 3)"),
+     ["Windows/Darwin handle types", "faults inside the kernel; SetBPFAndDrain with a model RawConn (not built)", "more than one fault per run", "a zero-length read carries no cause: only 'error and no result' is asserted for it; a read deadline is the normal no-packet signal"],
+     ["seams (harness/seams.json): NewSourceSink, LocalAddrForHost, reserveLocalPort, dialSackTCP replaced by model handles (zzvnet.Source/Sink/Conn/Listener)"], models=ENGINE_MODELS)
+
+# ---- C14 data races (happens-before monitor) ----
+def R(pkg, harness, reach, timeout=900, **kw):
+    return J(pkg, harness, reach, timeout=timeout, no_replay=True, race=1, **kw)
+c14_q = [R("sack", "Verif_C14_sack", ["end", "hop-found"], max=2, max_preempt=3), R("icmp", "Verif_C14_icmp", ["end", "hop-found"], max_preempt=3),
+         R("udp", "Verif_C14_udp", ["end", "hop-found"], max_preempt=3), R("icmp", "Verif_C14_echoid", ["end"]), R("packets", "Verif_C14_alloc", ["end"]),
+         R("traceroute", "Verif_C15_multi", ["all-succeeded", "some-failed"], queries=1, e2e=1, max_preempt=2),
+         R("traceroute", "Verif_C15_multi", ["some-failed"], queries=1, e2e=2, publicip=0, max_preempt=2),
+         R("result", "Verif_C18_rdns", ["end"], hops=1, max_preempt=2), R("common", "Verif_Engine_parallel", ["returned"], W=2, replies=1, waitSet=1, max_preempt=2)]
+c14_t = [R("sack", "Verif_C14_sack", ["end", "hop-found"], 7200, max=2, replies=2, max_preempt=4), R("icmp", "Verif_C14_icmp", ["end", "hop-found"], 7200, replies=2, max_preempt=4),
+         R("udp", "Verif_C14_udp", ["end", "hop-found"], 7200, replies=2, max_preempt=4), R("icmp", "Verif_C14_echoid", ["end"]), R("packets", "Verif_C14_alloc", ["end"]),
+         R("traceroute", "Verif_C15_multi", ["all-succeeded", "some-failed"], 7200, queries=2, e2e=2, max_preempt=2),
+         R("result", "Verif_C18_rdns", ["end"], 7200, hops=2, max_preempt=3), R("common", "Verif_Engine_parallel", ["returned"], 7200, W=2, replies=2, waitSet=1, max_preempt=3),
+         R("udp", "Verif_C10_udp", ["no-fault"], 3600, max_preempt=3), R("icmp", "Verif_C10_icmp", ["no-fault"], 3600, max_preempt=3), R("sack", "Verif_C10_sack", ["no-fault"], 3600, max_preempt=3)]
+spec("C14", ["C14/", "C11/concurrent"], c14_q, c14_t,
+     dict(CONC_BOUNDS, monitor="vector-clock happens-before monitor over every load/store of heap memory and every map access executed by the model goroutines; edges: go statement, unlock->lock, Done->Wait, send/close->receive, atomic operations, Once; two accesses by different goroutines to overlapping cells, one a write, unordered => race (symbolic indices: overlap decided by the solver)",
+          scenarios="real TracerouteParallel + each parallel-capable real driver (ICMP, UDP, SACK) with 1-2 replies already queued in the capture source (so a reply can be matched before, while or after its probe is recorded); runTracerouteMulti with concurrent failing/succeeding runs and probes; concurrent reverse-DNS lookups; concurrent allocator calls"),
+     ["races inside modelled libraries (sync, context model) and in the harness models", "weak-memory effects beyond happens-before", "preemption bound of the job"],
+     ["the synchronisation models record release/acquire edges; objects allocated by the context model are excluded from the monitor"], models=ENGINE_MODELS)
 for prop, s in SPECS.items():
     with open(os.path.join(HERE, prop + ".json"), "w") as f:
         json.dump(s, f, indent=1)
